@@ -295,11 +295,14 @@ static size_t tok_bytes(int c, int t, uint8_t *tok) {
   return 2;
 }
 
-static int send_request(int c, int r, int t, int q, int k, int mid, int observe, int blknum, int x) {
+/* payload variant p of a request: 0 = GET (no payload); 1.. = FETCH (RFC 8132) with Content-Format 42 and the payload
+   1 empty, 2 "A", 3 "AB", 4 the bytes 0f 00 01 00 00 00 62 (= what a further Uri-Query option "b" feeds into the cache-key digest) */
+static const struct { size_t len; const char *s; } fetch_pl[5] = { {0, ""}, {0, ""}, {1, "A"}, {2, "AB"}, {7, "\x0f\x00\x01\x00\x00\x00\x62"} };
+static int send_request(int c, int r, int t, int q, int k, int mid, int observe, int blknum, int x, int pv) {
   uint8_t tok[8]; char path[4]; uint8_t buf[4];
   coap_pdu_t *p;
   size_t tkl = tok_bytes(c, t, tok);
-  p = sim_make_pdu(csess[c], k == 'C' ? COAP_MESSAGE_CON : COAP_MESSAGE_NON, COAP_REQUEST_CODE_GET, mid, tok, tkl, NULL, 0);
+  p = sim_make_pdu(csess[c], k == 'C' ? COAP_MESSAGE_CON : COAP_MESSAGE_NON, pv ? COAP_REQUEST_CODE_FETCH : COAP_REQUEST_CODE_GET, mid, tok, tkl, NULL, 0);
   if (!p) return 0;
   /* options in increasing number order: ETag 4, Observe 6, Uri-Path 11, Uri-Query 15, Block2 23, Size1 60 */
   if (x == 1 || x == 3) coap_add_option(p, COAP_OPTION_ETAG, 2, (const uint8_t *)"\x11\x22");
@@ -308,10 +311,12 @@ static int send_request(int c, int r, int t, int q, int k, int mid, int observe,
   if (observe >= 0) coap_add_option(p, COAP_OPTION_OBSERVE, coap_encode_var_safe(buf, sizeof(buf), (unsigned)observe), buf);
   snprintf(path, sizeof(path), "r%d", r);
   coap_add_option(p, COAP_OPTION_URI_PATH, 2, (const uint8_t *)path);
+  if (pv) coap_add_option(p, COAP_OPTION_CONTENT_FORMAT, 1, (const uint8_t *)"\x2a");
   if (q == 1) coap_add_option(p, COAP_OPTION_URI_QUERY, 3, (const uint8_t *)"a=1");
   else if (q == 2) coap_add_option(p, COAP_OPTION_URI_QUERY, 3, (const uint8_t *)"b=2");
   else if (q == 3) { coap_add_option(p, COAP_OPTION_URI_QUERY, 1, (const uint8_t *)"a"); coap_add_option(p, COAP_OPTION_URI_QUERY, 1, (const uint8_t *)"b"); }
   else if (q == 4) coap_add_option(p, COAP_OPTION_URI_QUERY, 4, (const uint8_t *)"a\x0f\x00" "b");
+  else if (q == 5) coap_add_option(p, COAP_OPTION_URI_QUERY, 1, (const uint8_t *)"a");
   if (res_blk[r] && (blknum >= 0 || res_szx[r] >= 0)) {
     /* requests to a block-wise resource negotiate the size; blk:… asks for block <blknum> of the body in progress */
     unsigned v = ((unsigned)(blknum < 0 ? 0 : blknum) << 4) | (unsigned)(res_szx[r] < 0 ? 6 : res_szx[r]);
@@ -319,6 +324,7 @@ static int send_request(int c, int r, int t, int q, int k, int mid, int observe,
   }
   if (x == 4) coap_add_option(p, COAP_OPTION_SIZE1, 0, NULL);
   if (x == 5) coap_add_option(p, COAP_OPTION_SIZE1, 1, (const uint8_t *)"\x02");
+  if (pv && fetch_pl[pv].len) coap_add_data(p, fetch_pl[pv].len, (const uint8_t *)fetch_pl[pv].s);
   cli_reply = NULL;
   coap_send(csess[c], p);
   if (!cli_reply) return 0;
@@ -342,17 +348,19 @@ static int do_event(char *ev) {
   const char *op = f[0];
   if (!strcmp(op, "reg") || !strcmp(op, "can") || !strcmp(op, "get")) {
     int c = geti(f, nf, 1), r = geti(f, nf, 2), t = geti(f, nf, 3), q = geti(f, nf, 4), mid = geti(f, nf, 6);
-    int x = nf == 8 ? geti(f, nf, 7) : 0;
-    if ((nf != 7 && nf != 8) || c < 0 || c >= ncli || r < 0 || r >= nres || t < 0 || t > MAXT || q < 0 || q > 4 || mid < 0 || mid > 65535 ||
-        (f[5][0] != 'C' && f[5][0] != 'N') || (nf == 8 && !alldigits(f[7])) || x < 0 || x > 5) return 0;
-    send_request(c, r, t, q, f[5][0], mid, op[0] == 'r' ? 0 : op[0] == 'c' ? 1 : -1, -1, x);
+    int x = nf >= 8 ? geti(f, nf, 7) : 0;
+    int pv = nf == 9 ? geti(f, nf, 8) : 0;        /* 9th field: FETCH with payload variant 1..4 (not on block-wise resources) */
+    if ((nf != 7 && nf != 8 && nf != 9) || c < 0 || c >= ncli || r < 0 || r >= nres || t < 0 || t > MAXT || q < 0 || q > 5 || mid < 0 || mid > 65535 ||
+        (f[5][0] != 'C' && f[5][0] != 'N') || (nf >= 8 && !alldigits(f[7])) || x < 0 || x > 5 ||
+        (nf == 9 && (!alldigits(f[8]) || pv < 1 || pv > 4 || res_blk[r]))) return 0;
+    send_request(c, r, t, q, f[5][0], mid, op[0] == 'r' ? 0 : op[0] == 'c' ? 1 : -1, -1, x, pv);
     return 1;
   }
   if (!strcmp(op, "blk")) {
     int c = geti(f, nf, 1), r = geti(f, nf, 2), t = geti(f, nf, 3), q = geti(f, nf, 4), mid = geti(f, nf, 6), num = geti(f, nf, 7);
     if (nf != 8 || c < 0 || c >= ncli || r < 0 || r >= nres || !res_blk[r] || t < 0 || t > MAXT || q < 0 || q > 2 || mid < 0 ||
         mid > 65535 || (f[5][0] != 'C' && f[5][0] != 'N') || !alldigits(f[7]) || num < 0 || num > 255) return 0;
-    send_request(c, r, t, q, f[5][0], mid, -1, num, 0);
+    send_request(c, r, t, q, f[5][0], mid, -1, num, 0, 0);
     return 1;
   }
   if (!strcmp(op, "chg")) {
@@ -456,6 +464,7 @@ static void step(char *line) {
     snprintf(path, sizeof(path), "r%d", nres);
     res[nres] = coap_resource_init(coap_make_str_const(path), flags);   /* the path is copied (no RELEASE_URI flag) */
     coap_register_request_handler(res[nres], COAP_REQUEST_GET, hnd_get);
+    coap_register_request_handler(res[nres], COAP_REQUEST_FETCH, hnd_get);   /* FETCH observations (RFC 8132): same representation */
     coap_resource_set_get_observable(res[nres], 1);
     coap_add_resource(srv, res[nres]);
     coap_persist_set_observe_num(res[nres], (uint32_t)start);
